@@ -153,7 +153,7 @@ pub fn gen_ttl_family_c(prop: &str, seed: u64, faulty: bool, conditional: bool) 
     let flavor = pick_flavor_l(&mut rng);
     let mut cfg = roomy_cfg(&mut rng, flavor);
     if conditional && rng.chance(6, 10) {
-        cfg.validator = Validator::Mod { m: rng.range(2, 3), r: rng.below(2) };
+        cfg.validator = if rng.chance(1, 4) { Validator::Toggle } else { Validator::Mod { m: rng.range(2, 3), r: rng.below(2) } };
     }
     if rng.chance(1, 4) {
         // conflict-bearing keys without collisions: index = key, conflict hash non-zero (the
@@ -475,7 +475,7 @@ pub fn gen_p_family(prop: &str, seed: u64, pf: &PProfile) -> Plan {
         gen_universe(&mut rng, n_keys)
     };
     if rng.chance(pf.validator_pct, 100) {
-        cfg.validator = Validator::Mod { m: rng.range(2, 4), r: rng.below(2) };
+        cfg.validator = if rng.chance(1, 4) { Validator::Toggle } else { Validator::Mod { m: rng.range(2, 4), r: rng.below(2) } };
         tags.push("validator".into());
     }
     cfg.coster = rng.chance(pf.coster_pct, 100);
@@ -990,14 +990,20 @@ pub fn gen_bulk(prop: &str, seed: u64) -> Plan {
     cfg.cleanup_ms = *rng.pick(&[250u64, 500, 1000, 2000]);
     let mut sim = sim_plan(&mut rng, false);
     sim.max_steps = 2_000_000;
-    let n = *rng.pick(&[1200u64, 2000, 3000]);
+    // "backlog" variant: the processor is held back while one client queues thousands of items
+    // without waiting - more than any internal burst or batch constant (4096, ...) at one wakeup
+    let backlog = rng.chance(1, 4);
+    let n = if backlog { *rng.pick(&[4300u64, 4600, 5200]) } else { *rng.pick(&[1200u64, 2000, 3000]) };
+    if backlog {
+        sim.stalls.push(StallPlan { at_step: 1, task: "processor".into(), for_steps: 1_500_000, for_ns: 0 });
+    }
     let base = 1000u64;
     let ttl = *rng.pick(&[700 * MS, SEC, 1500 * MS, 2 * SEC + 300 * MS]);
     let mut ops = Vec::new();
     for i in 0..n {
         let t = if rng.chance(9, 10) { ttl } else { 0 };
         ops.push(Op::Insert { k: base + i, cost: rng.range(1, 3) as i64, ttl_ns: t, size: 1 });
-        if i % 500 == 499 {
+        if i % 500 == 499 && !backlog {
             ops.push(Op::Wait);
         }
     }
@@ -1015,11 +1021,23 @@ pub fn gen_bulk(prop: &str, seed: u64) -> Plan {
     // over capacity for the properties that are about eviction: thousands of admissions with
     // eviction rounds instead of a roomy cache
     let mut tags = vec!["lockstep".to_string(), "fault_free".into(), "bulk".into()];
+    if backlog {
+        tags.push("backlog".into());
+    }
     if matches!(prop, "C01" | "C06" | "C07" | "C08" | "C17") && rng.chance(1, 2) {
         let item = if cfg.ignore_internal_cost { 0 } else { 72 };
         cfg.max_cost = (n as i64 / 4) * (item + 2);
         cfg.metrics = true;
         tags.push("over_capacity".into());
+        if rng.chance(2, 3) {
+            // a "whale": one admission that has to evict hundreds of residents at once
+            let slots = n as i64 / 4 - rng.range(5, 30) as i64;
+            let whale = Op::Insert { k: base + n + 7, cost: slots * (item + 2) - item, ttl_ns: 0, size: 2 };
+            let at = ops.iter().position(|o| matches!(o, Op::Barrier)).unwrap() + 1;
+            ops.insert(at, Op::Barrier);
+            ops.insert(at, whale);
+            tags.push("whale_admission".into());
+        }
     } else {
         tags.push("under_capacity".into());
     }
